@@ -80,7 +80,9 @@ class C19(Check):
         for _ in range(n):
             ns = rng.choice([1, 2, 3, 3, 4, 4, 5])
             out.append({"halt": rng.random() < 0.5, "max": rng.choice(MAXES),
-                        "stages": [self._rand_stage(rng) for _ in range(ns)], "x": rng.randint(-4, 9)})
+                        "stages": [self._rand_stage(rng) for _ in range(ns)], "x": rng.randint(-4, 9),
+                        "mode": rng.choice(["sequential", "sequential", "parallel", "conditional", "amplifying"]),
+                        "runs": rng.choice([1, 2, 2, 3])})
         return out
 
     def exhaustive_cases(self):
@@ -94,7 +96,9 @@ class C19(Check):
         for n in range(1, top + 1):
             for combo in itertools.product(behs, repeat=n):
                 for halt in (True, False):
-                    out.append({"halt": halt, "max": 10.0, "stages": list(combo), "x": 3})
+                    out.append({"halt": halt, "max": 10.0, "stages": list(combo), "x": 3,
+                                "mode": ["sequential", "parallel", "conditional", "amplifying"][(len(out) // 7) % 4],
+                                "runs": 1 + (len(out) % 2)})
         return out
 
     def extra_checks(self):
@@ -115,7 +119,8 @@ class C19(Check):
         if case.get("mapk"):
             return self._run_mapk(C, case)
         stages = case["stages"]
-        casc = C.Cascade("c", max_amplification=case["max"], halt_on_failure=case["halt"], silent=True)
+        mode = {m.value: m for m in C.CascadeMode}[case.get("mode", "sequential")]
+        casc = C.Cascade("c", mode=mode, max_amplification=case["max"], halt_on_failure=case["halt"], silent=True)
         for i, s in enumerate(stages):
             def mk(i, s):
                 def checkpoint(x):
@@ -143,6 +148,12 @@ class C19(Check):
                                       checkpoint=checkpoint if s["c"] else None,
                                       on_error=on_error if s["h"] else None, required=s["req"])
             casc.add_stage(mk(i, s))
+        # the same object is run several times: every run must be judged (and come out) on its own
+        earlier = []
+        for _ in range(max(0, case.get("runs", 1) - 1)):
+            r0 = casc.run(case["x"])
+            earlier.append(self._summary(r0, list(log)))
+            del log[:]
         res = casc.run(case["x"])
         codes = {"completed": 0, "failed": 1, "skipped": 2, "blocked": 3}
         amp = Fraction(res.total_amplification)
@@ -161,8 +172,13 @@ class C19(Check):
             sres.append((i, st, f if applied else None))
         obs += [list(e) for e in log]
         trace = {"log": log, "sres": sres, "success": bool(res.success), "out": out,
-                 "amp": amp, "blocked": res.blocked_at}
+                 "amp": amp, "blocked": res.blocked_at, "earlier": earlier, "last": self._summary(res, list(log))}
         return obs, trace
+
+    @staticmethod
+    def _summary(res, log):
+        return [bool(res.success), repr(res.final_output), res.blocked_at, res.stages_completed,
+                str(Fraction(res.total_amplification)), [(r.stage_name, r.status.value) for r in res.stage_results], log]
 
     def _run_mapk(self, C, case):
         m = C.MAPKCascade(silent=True)
@@ -200,6 +216,11 @@ class C19(Check):
         if trace.get("mapk"):
             return None if trace["ok"] else Violation("C19/mapk-preset", "MAPK preset does not complete with the composed output and clamped amplification 100")
         stages, log = case["stages"], trace["log"]
+        for k, e in enumerate(trace.get("earlier", [])):
+            if e != trace["last"]:
+                return Violation("C19/state-carried-between-runs",
+                                 f"run {k + 1} and run {len(trace['earlier']) + 1} of the same pipeline object on the same "
+                                 f"input differ: {e[:5]} vs {trace['last'][:5]}")
         # gates fail closed
         for k, (i, cb, x) in enumerate(log):
             if cb == 1 and stages[i]["c"] is not None:
